@@ -234,7 +234,18 @@ def dualize(node, odd=lambda s: False):
 
 def norm_text(node):
     """Text used to compare arms: `-x` on inf simplified, double negation removed."""
-    s = U(node)
+    class _Canon(ast.NodeTransformer):      # one orientation for every single comparison: a > b is written b < a
+        def visit_Compare(self, n):
+            self.generic_visit(n)
+            if len(n.ops) == 1 and isinstance(n.ops[0], (ast.Gt, ast.GtE)):
+                return ast.Compare(left=n.comparators[0], ops=[ast.Lt() if isinstance(n.ops[0], ast.Gt) else ast.LtE()], comparators=[n.left])
+            return n
+    try:
+        t = _Canon().visit(copy.deepcopy(node))
+        ast.fix_missing_locations(t)
+        s = U(t)
+    except Exception:
+        s = U(node)
     return s.replace("--", "").replace("- -", "")
 
 
